@@ -356,6 +356,10 @@ func init() {
 			"GJS.Props.C02.prim_roundtrip", "GJS.Props.C02.validators_only_reject_on_constraints", "GJS.Props.C02.unmarshal_accept_stable",
 			"GJS.Props.C02.rejected_forever_not_accepted", "GJS.Proofs.decode_ok_mono", "GJS.Proofs.okMono",
 			"GJS.Props.C02.numeric_accepts_valid_float", "GJS.Props.C02.string_accepts_valid_ascii", "GJS.Props.C02.array_accepts_valid",
+		
+			"GJS.Props.C02.runAfter_ok_iff", "GJS.Props.C02.runBefore_ok_iff", "GJS.Props.C02.struct_method_ok_iff", "GJS.Props.C02.accepted_passes_every_check",
+			"GJS.Props.C02.acc_slice_iff", "GJS.Props.C02.acc_struct_iff", "GJS.Props.C02.acc_ptr_iff", "GJS.Props.C02.acc_named_iff",
+			"GJS.Props.C02.acc_string_iff", "GJS.Props.C02.acc_bool_iff", "GJS.Props.C02.acc_float_iff", "GJS.Props.C02.acc_int_iff",
 		})
 		o := treeOpts()
 		o.Formats = true
